@@ -38,9 +38,42 @@ def run(chk: lib.Check):
     fr_cases, fl_cases, bl_cases = [], [], []
     specs = corpus.model_specs(chk.tier)[: (1 if quick else 3)]
     for spec0 in specs:
-        for state in ["loaded", "edited"]:
-            model = corpus.load(spec0)
+        for state in ["loaded", "edited", "fragmented"]:
             rng = random.Random(f"{chk.seed}:{spec0['name']}:{state}")
+            frag_tmp = None
+            if state == "fragmented":
+                # the same questions on a layout in which subtrees live in fragment files of their own: references then cross files
+                # ("type path#id") and ancestors cross placeholders
+                if "resources" in spec0:
+                    continue
+                import fragmenter, shutil, tempfile
+                frag_tmp = pathlib.Path(tempfile.mkdtemp(prefix="c10frag-"))
+                src_ = pathlib.Path(spec0["path"]).parent
+                shutil.copytree(src_, frag_tmp / "m", ignore=shutil.ignore_patterns("*.license"))
+                capella_ = next(p_.name for p_ in src_.glob("*.capella"))
+                mono_ = corpus.load(spec0)
+                cands_ = []
+                for p_, t_ in mono_._loader.trees.items():
+                    if p_.suffix == ".capella" and p_.parts[0] == "\0":
+                        for e in t_.root.iter():
+                            if isinstance(e.tag, str) and e.get("id") and e.get(graph.XSI_TYPE) and len(e) >= 3 and e.getparent() is not None \
+                                    and (e.get(graph.XSI_TYPE).endswith("Pkg") or e.get(graph.XSI_TYPE).endswith("Component")):
+                                cands_.append(e)
+                rng.shuffle(cands_)
+                picks_, chosen_ = [], []
+                for e in cands_:
+                    if len(chosen_) >= 4:
+                        break
+                    chosen_.append(e)
+                chosen_.sort(key=lambda e: len(list(e.iterancestors())))
+                for i_, e in enumerate(chosen_):
+                    picks_.append((e.get("id"), ("fragments/" if i_ % 2 else "") + f"F{i_} {e.get(graph.XSI_TYPE).split(':')[-1]}.capellafragment"))
+                del mono_
+                made_ = fragmenter.fragment_model(frag_tmp / "m", capella_, pathlib.Path(spec0["path"]).name, picks_)
+                stats["fragment_files_in_fragmented_state"] += len(made_)
+                model = capellambse.MelodyModel(str(frag_tmp / "m" / pathlib.Path(spec0["path"]).name))
+            else:
+                model = corpus.load(spec0)
             uuidmod.uuid4 = lambda rng=rng: uuidmod.UUID(int=rng.getrandbits(128), version=4)
             hot_holders: list[str] = []
             if state == "edited":
@@ -267,7 +300,28 @@ def run(chk: lib.Check):
                     break
             stats["backrefs_checked"] += n_back
             # ---------------- search: classes, full type strings, short names, below anchors
-            raw = graph.raw_scan_types(loader)
+            raw = {xt_: [e for e in els_ if e.get("href") is None] for xt_, els_ in graph.raw_scan_types(loader).items()}
+            raw = {xt_: els_ for xt_, els_ in raw.items() if els_}
+            # ancestors in the glued tree, by scanning: a fragment root continues at the parent of the element that carries an href to its id
+            placeholder_of = {}
+            for p_, t_ in loader.trees.items():
+                if p_.suffix in graph.SEMANTIC:
+                    for e in t_.root.iter():
+                        if isinstance(e.tag, str) and e.get("href"):
+                            placeholder_of[e.get("href").split("#")[-1]] = e
+
+            def glued_ancestors(e):
+                while True:
+                    par = e.getparent()
+                    if par is None:
+                        ph = placeholder_of.get(e.get("id") or "")
+                        if ph is None:
+                            return
+                        par = ph.getparent()
+                        if par is None:
+                            return
+                    yield par
+                    e = par
             handlers = _xtype.XTYPE_HANDLERS[None]
             shorts = collections.defaultdict(list)
             for xt in handlers:
@@ -275,6 +329,15 @@ def run(chk: lib.Check):
             anchors = [o for o in objs if len(o._element) > 5]
             rng.shuffle(anchors)
             anchors = anchors[: (4 if quick else 10)]
+            if state == "fragmented":
+                # anchors above a placeholder: what lies below them is partly in other files
+                above = []
+                for ph in placeholder_of.values():
+                    for anc in [ph.getparent(), *glued_ancestors(ph.getparent())] if ph.getparent() is not None else []:
+                        if anc.get("id") and anc.get("id") in byu and byu[anc.get("id")] not in above:
+                            above.append(byu[anc.get("id")])
+                rng.shuffle(above)
+                anchors = above[: (6 if quick else 14)] + anchors[:2]
             xts = sorted(raw)
             for xt in (xts if state == "edited" or not quick else rng.sample(xts, min(25, len(xts)))):
                 want = {id(e) for e in raw[xt]}
@@ -310,7 +373,7 @@ def run(chk: lib.Check):
                     except Exception as ex:  # noqa: BLE001
                         chk.violation(f"search-below-raises:{type(ex).__name__}", f"search({xt!r}, below={a.uuid}) raised {ex!r}", {"model": spec0["name"]})
                         continue
-                    w = {id(e) for e in raw[xt] if any(anc is a._element for anc in e.iterancestors())}
+                    w = {id(e) for e in raw[xt] if any(anc is a._element for anc in glued_ancestors(e))}
                     stats["search_below_checked"] += 1
                     if {id(e) for e in got._elements} != w:
                         chk.violation(f"search-below:{xt.split(':')[-1]}", f"search({xt!r}, below={type(a).__name__} {a.uuid}) returns {len(got)} elements, a scan finds {len(w)}",
@@ -329,11 +392,16 @@ def run(chk: lib.Check):
                     if not isinstance(lst, _obj.ElementList) or len(lst) < 2:
                         continue
                     nl += 1
-                    for fattr in ("name", "xtype", "progress_status", "visibility", "kind", "is_abstract", "description"):
+                    for fpath in (("name",), ("xtype",), ("progress_status",), ("visibility",), ("kind",), ("is_abstract",), ("description",),
+                                  ("parent", "name"), ("parent", "uuid"), ("owner", "name"), ("target", "name"), ("layer", "name"), ("source", "name"),
+                                  ("parent", "parent", "uuid")):
+                        fattr = ".".join(fpath)
                         keys = []
                         for x in lst:
                             try:
-                                k = getattr(x, fattr)
+                                k = x
+                                for seg_ in fpath:
+                                    k = getattr(k, seg_)
                                 if isinstance(k, enum.Enum):
                                     k = k.name
                                 keys.append(k)
@@ -348,8 +416,11 @@ def run(chk: lib.Check):
                         present = [k for k in keys if k is not AttributeError]
                         for v in list(dict.fromkeys(present))[:3] + ["no such value ☃"]:
                             try:
-                                by = getattr(lst, f"by_{fattr}")(v, single=False)
-                                ex = getattr(lst, f"exclude_{fattr}s")(v)
+                                fb, fe = getattr(lst, f"by_{fpath[0]}"), getattr(lst, f"exclude_{fpath[0]}s")
+                                for seg_ in fpath[1:]:
+                                    fb, fe = getattr(fb, seg_), getattr(fe, seg_)
+                                by = fb(v, single=False)
+                                ex = fe(v)
                             except Exception as exn:  # noqa: BLE001
                                 chk.violation(f"filter-raises:{fattr}:{type(exn).__name__}", f"filtering {type(o).__name__}.{attr} by {fattr}={v!r} raised {exn!r}", {"model": spec0["name"]})
                                 continue
@@ -390,6 +461,9 @@ def run(chk: lib.Check):
                 if nl > (60 if quick else 600):
                     break
             del model
+            if frag_tmp is not None:
+                import shutil
+                shutil.rmtree(frag_tmp, ignore_errors=True)
     chk.correspond("From V Require Import Model.Query.", "w_find_references", fr_cases, tag="C10_refs")
     chk.correspond("From V Require Import Model.Query.", "w_filters", fl_cases, tag="C10_filt")
     chk.correspond("From V Require Import Model.Query.", "w_backrefs_loop", bl_cases, tag="C10_backloop")
